@@ -27,7 +27,7 @@ COMPONENTS = {"real": ["clustering/hierarchical.py (Hierarchical, HierarchicalTr
                        "dtw.distance_matrix_func (Python and C) for the real-distance data sets", "scipy.cluster.hierarchy.linkage (as the stated reference of LinkageTree)"],
               "stub": ["client sessions and their interleaving (seeded scheduler)", "environment callbacks order_hook / merge_hook (seeded, checked)",
                        "synthetic dists_fun returning generated matrices with ties, zeros and infinities", "reference model: live-set agglomeration in sim/props/c15.py"]}
-ASSUMPTIONS = ["bounds: 2..8 series per data set, histories <= 24 ops",
+ASSUMPTIONS = ["bounds: mostly 2..8 series per data set (one history in 12: 9..20 series and up to ~30 ops)",
                "the tree-shape oracle is asserted only when every pairwise distance is finite (with an infinite entry the code stops merging by design)",
                "environment hooks are stateless functions of (hook seed, call number within the fit), so that a repeated fit must reproduce the first"]
 
@@ -36,8 +36,9 @@ def gen_history(st):
     rng = st("workload")
     ndata = 1 + rng.below(3)
     data = []
+    big = rng.below(12) == 0          # swarm sizing
     for _ in range(ndata):
-        n = 2 + rng.below(7)
+        n = 9 + rng.below(12) if big else 2 + rng.below(7)
         kind = rng.choice(["matrix", "matrix", "matrix", "series_py", "series_c"])
         if kind == "matrix":
             grid = rng.below(3)
@@ -79,7 +80,7 @@ def gen_history(st):
     for m in models:
         programs[rng.below(nsess)].append(m)
     for s in range(nsess):
-        for _ in range(1 + rng.below(6)):
+        for _ in range((4 + rng.below(8)) if big else (1 + rng.below(6))):
             k = rng.below(10)
             if k < 7:
                 programs[s].append({"op": "fit", "model": rng.below(nmodels), "data": rng.below(ndata)})
